@@ -65,6 +65,7 @@ def build(template_path, out_path, canary=False, repo=None, mutate=None):
     files = {}
     templates = {}
     explicit = set()
+    arm_decls = {}
     side = []
     norm_ctx = {}
 
@@ -261,6 +262,15 @@ def build(template_path, out_path, canary=False, repo=None, mutate=None):
             from .rustlex import line_of
             s, e, l0, l1 = cs, ce, line_of(sf.src, cs), line_of(sf.src, ce)
             cut.name = marm.group(2)
+        elif re.match(r"outlined (fn .*|method .*)$", cut.selector):
+            fsel = re.match(r"outlined (fn .*|method .*)$", cut.selector).group(1)
+            it = sf.find(fsel)
+            arms = arm_decls.get((cut.path, fsel), [])
+            if not arms:
+                raise LostAnchor(f"outlined {fsel}: the template cuts no arm of it")
+            raw = sf.outlined_fn(it, arms)
+            s, e, l0, l1 = sf.span(it)
+            norm_log.append(f"{cut.selector}: X7 the bodies of {len(arms)} match arms replaced by calls of the functions they are cut as (rule X4): " + ", ".join(a[1] for a in arms))
         elif re.match(r"nested (.*) in (fn .*|method .*)$", cut.selector):
             mn = re.match(r"nested (.*) in (fn .*|method .*)$", cut.selector)
             it = sf.find_nested(sf.find(mn.group(2)), mn.group(1))
@@ -298,6 +308,9 @@ def build(template_path, out_path, canary=False, repo=None, mutate=None):
             t = ln.strip()
             if t.startswith("//@ include "):
                 prescan(lines_of(os.path.join(base, t[len("//@ include "):].strip())))
+            ma = re.match(r"//@ cut (\S+) :: arm (.*?) as (\w+)(\(.*\)(?:\s*->\s*.*?)?) in (fn .*?|method .*?)(?: rules=\S+)?$", t)
+            if ma:
+                arm_decls.setdefault((ma.group(1), ma.group(5)), []).append((ma.group(2).strip(), ma.group(3), ma.group(4)))
             m = re.match(r"//@ cut (\S+) :: method (.*)::(\w+)(?: rules=\S+)?$", t)
             if m:
                 explicit.add((m.group(1), " ".join(m.group(2).split()), m.group(3)))
